@@ -24,6 +24,9 @@ var (
 	nul = byte('\000')
 )
 
+// maxNestingDepth is the nesting limit of Compact and Indent (the limit of encoding/json).
+const maxNestingDepth = 10000
+
 func Compact(buf *bytes.Buffer, src []byte, escape bool) error {
 	if len(src) == 0 {
 		return errors.ErrUnexpectedEndOfJSON("", 0)
@@ -57,7 +60,7 @@ func compactAndWrite(buf *bytes.Buffer, dst []byte, src []byte, escape bool) err
 }
 
 func compact(dst, src []byte, escape bool) ([]byte, error) {
-	buf, cursor, err := compactValue(dst, src, 0, escape)
+	buf, cursor, err := compactValue(dst, src, 0, escape, 0)
 	if err != nil {
 		return nil, err
 	}
@@ -92,18 +95,24 @@ LOOP:
 	return cursor
 }
 
-func compactValue(dst, src []byte, cursor int64, escape bool) ([]byte, int64, error) {
+func compactValue(dst, src []byte, cursor int64, escape bool, depth int) ([]byte, int64, error) {
 	for {
 		switch src[cursor] {
 		case ' ', '\t', '\n', '\r':
 			cursor++
 			continue
 		case '{':
-			return compactObject(dst, src, cursor, escape)
+			if depth >= maxNestingDepth {
+				return nil, 0, errors.ErrExceededMaxDepth(src[cursor], cursor)
+			}
+			return compactObject(dst, src, cursor, escape, depth+1)
 		case '}':
 			return nil, 0, errors.ErrSyntax("unexpected character '}'", cursor)
 		case '[':
-			return compactArray(dst, src, cursor, escape)
+			if depth >= maxNestingDepth {
+				return nil, 0, errors.ErrExceededMaxDepth(src[cursor], cursor)
+			}
+			return compactArray(dst, src, cursor, escape, depth+1)
 		case ']':
 			return nil, 0, errors.ErrSyntax("unexpected character ']'", cursor)
 		case '"':
@@ -122,7 +131,7 @@ func compactValue(dst, src []byte, cursor int64, escape bool) ([]byte, int64, er
 	}
 }
 
-func compactObject(dst, src []byte, cursor int64, escape bool) ([]byte, int64, error) {
+func compactObject(dst, src []byte, cursor int64, escape bool, depth int) ([]byte, int64, error) {
 	if src[cursor] == '{' {
 		dst = append(dst, '{')
 	} else {
@@ -145,7 +154,7 @@ func compactObject(dst, src []byte, cursor int64, escape bool) ([]byte, int64, e
 			return nil, 0, errors.ErrExpected("colon after object key", cursor)
 		}
 		dst = append(dst, ':')
-		dst, cursor, err = compactValue(dst, src, cursor+1, escape)
+		dst, cursor, err = compactValue(dst, src, cursor+1, escape, depth)
 		if err != nil {
 			return nil, 0, err
 		}
@@ -164,7 +173,7 @@ func compactObject(dst, src []byte, cursor int64, escape bool) ([]byte, int64, e
 	}
 }
 
-func compactArray(dst, src []byte, cursor int64, escape bool) ([]byte, int64, error) {
+func compactArray(dst, src []byte, cursor int64, escape bool, depth int) ([]byte, int64, error) {
 	if src[cursor] == '[' {
 		dst = append(dst, '[')
 	} else {
@@ -177,7 +186,7 @@ func compactArray(dst, src []byte, cursor int64, escape bool) ([]byte, int64, er
 	}
 	var err error
 	for {
-		dst, cursor, err = compactValue(dst, src, cursor, escape)
+		dst, cursor, err = compactValue(dst, src, cursor, escape, depth)
 		if err != nil {
 			return nil, 0, err
 		}
